@@ -176,6 +176,12 @@ func (ef *c12Effects) classify(e *c12Effect, loopFn *c12Fn, rs *ast.RangeStmt) (
 		}
 		return c12Bad, "deletes a key that is not derived from the current call: whether other iterations find it depends on their order"
 	case "bulk":
+		// copy(dst, src) into a list that N1 follows to a sort is a fill of that list, like append
+		for _, t := range ef.s.taints(loopFn, rs.Body, 3) {
+			if e.inLoop != nil && (t.root == e.root || c12WritesPlace(info, e.fn.fi.Decl.Body, e.lhs, t.root)) {
+				return c12OK, "fills (copy) a list that N1 requires to be sorted into a total order before it escapes"
+			}
+		}
 		return c12Unk, "a bulk write the rule does not classify"
 	case "incdec":
 		if keyed != "" {
@@ -200,6 +206,9 @@ func (ef *c12Effects) classify(e *c12Effect, loopFn *c12Fn, rs *ast.RangeStmt) (
 		if z, isConst := constInt(info, se.High); isConst && z == 0 && ef.accumulates(e) == nil {
 			return c12OK, "stores an empty view [:0] (only spare capacity is kept; N6 decides how it may be used)"
 		}
+	}
+	if ef.scratchOnly(e) {
+		return c12OK, "a scratch buffer: only its capacity survives an iteration; its contents are reached only through empty views [:0] and leave only by value copy"
 	}
 	vPer, _ := ef.uses(e, e.rhs, 3)
 	if ef.nilGuarded(e) {
